@@ -136,6 +136,118 @@ func c03AllowedDirect(p *core.Program, fn *ssa.Function, mutator string, applyIm
 	return false, ""
 }
 
+// c03R9: element identity inside the list types of package flows.
+func c03R9(p *core.Program, r *core.Report) {
+	pk := p.Pkg("flows")
+	if pk == nil {
+		r.Errorf("package flows not loaded")
+		return
+	}
+	hasUUID := func(t types.Type) bool {
+		ms := types.NewMethodSet(t)
+		for i := 0; i < ms.Len(); i++ {
+			if ms.At(i).Obj().Name() == "UUID" {
+				return true
+			}
+		}
+		return false
+	}
+	// list type -> element pointer type
+	lists := map[*types.Named]types.Type{}
+	sc := pk.Types.Scope()
+	for _, nm := range sc.Names() {
+		tn, ok := sc.Lookup(nm).(*types.TypeName)
+		if !ok {
+			continue
+		}
+		named, ok := tn.Type().(*types.Named)
+		if !ok {
+			continue
+		}
+		st, ok := named.Underlying().(*types.Struct)
+		if !ok {
+			continue
+		}
+		for i := 0; i < st.NumFields(); i++ {
+			sl, ok := st.Field(i).Type().Underlying().(*types.Slice)
+			if !ok {
+				continue
+			}
+			pt, ok := sl.Elem().(*types.Pointer)
+			if !ok {
+				continue
+			}
+			if en, ok := pt.Elem().(*types.Named); ok && en.Obj().Pkg() == pk.Types && hasUUID(pt) {
+				lists[named] = pt
+			}
+		}
+	}
+	nLists, nByUUID := 0, 0
+	for _, named := range sortedNamed(lists) {
+		elem := lists[named]
+		nLists++
+		var byPointer []string
+		uuidCmp := 0
+		for _, fn := range p.ModuleFunctions() {
+			rn := recvNamed(fn)
+			if rn != named || p.IsTestFile(fn.Pos()) {
+				continue
+			}
+			core.EachInstr(fn, true, func(_ *ssa.Function, in ssa.Instruction) {
+				switch x := in.(type) {
+				case *ssa.BinOp:
+					if x.Op != token.EQL && x.Op != token.NEQ {
+						return
+					}
+					if types.Identical(x.X.Type(), elem) && types.Identical(x.Y.Type(), elem) && !core.IsNilConst(x.X) && !core.IsNilConst(x.Y) {
+						byPointer = append(byPointer, "== on two "+core.ShortType(elem)+" at "+p.Pos(x.Pos()))
+					}
+					isUUIDCall := func(v ssa.Value) bool {
+						c, ok := core.StripConv(v).(*ssa.Call)
+						if !ok {
+							return false
+						}
+						o := core.CalleeObj(&c.Call)
+						return o != nil && o.Name() == "UUID"
+					}
+					if isUUIDCall(x.X) && isUUIDCall(x.Y) {
+						uuidCmp++
+					}
+				case *ssa.Call:
+					g := x.Call.StaticCallee()
+					if g == nil || g.Pkg == nil || g.Pkg.Pkg.Path() != "slices" {
+						if g == nil || g.Origin() == nil || g.Origin().Pkg == nil || g.Origin().Pkg.Pkg.Path() != "slices" {
+							return
+						}
+					}
+					for _, ta := range g.TypeArgs() {
+						if types.Identical(ta, elem) {
+							byPointer = append(byPointer, g.Name()+" (element equality) at "+p.Pos(x.Pos()))
+							return
+						}
+					}
+				}
+			})
+		}
+		nByUUID += uuidCmp
+		r.Check(len(byPointer) == 0, "R9", named.Obj().Name()+"/elements-identified-by-uuid", p.Pos(named.Obj().Pos()), fmt.Sprintf("%d comparisons, all of UUID()", uuidCmp),
+			named.Obj().Name()+" identifies its elements by pointer in one place ("+strings.Join(byPointer, "; ")+") and by UUID in others: for a contact whose groups come from another load of the same assets the pointer test never matches, so what the modifier announces (decided by UUID) is not what the list does")
+	}
+	r.Count("uuid_identified_list_types", nLists)
+	r.Count("uuid_element_comparisons", nByUUID)
+	r.Require("uuid_identified_list_types", nLists, 1)
+	r.Require("uuid_element_comparisons", nByUUID, 1)
+}
+
+func sortedNamed(m map[*types.Named]types.Type) []*types.Named {
+	var out []*types.Named
+	for n := range m {
+		out = append(out, n)
+	}
+	sort.Slice(out, func(i, j int) bool { return out[i].Obj().Name() < out[j].Obj().Name() })
+	return out
+}
+
 func checkC03(p *core.Program, r *core.Report) {
 	r.Rule("R1", "contact mutators (setters, URN/group/field list writers, direct stores to Contact fields) are called only from Modifier.Apply implementations, modifiers.ReevaluateGroups, the owning types' own methods/constructors, and session.SetInput (last seen)")
 	r.Rule("R2", "per Modifier.Apply implementation, on every path (loops unrolled 3x, mutator results forked true/false): contact mutated <=> returns true; mutated => the paired change event is logged; not mutated => no change event")
@@ -144,6 +256,7 @@ func checkC03(p *core.Program, r *core.Report) {
 	r.Rule("R6", "reset and rebuild: where an Apply calls a mutator that replaces a whole list by an empty one (a parameterless Contact method storing a fresh list into a field, e.g. ClearURNs) and also mutators that add to the same list, `mutated` no longer implies `changed`; every path that reports a change (returns true) is then also controlled by the false edge of an Equal comparison of that list")
 	r.Rule("R8", "`unchanged` includes `both unset`: every helper of the modifiers package that compares two values of one pointer type for equality and decides an Apply guard returns true when both are nil (evaluated over the nil/nil case) — otherwise clearing what is already unset is reported as a change, every time")
 	r.Rule("R7", "one notion of `same URN`: the Contact methods that take a URN (HasURN, RemoveURN, and AddURN through HasURN) compare it with the contact's URNs the same way everywhere (Identity() on both sides), so that `has` and `remove` cannot disagree; ContactURN.Equal, which decides whether a URN list changed, compares the complete raw URN that contact_urns_changed carries, never a projection of it")
+	r.Rule("R9", "one notion of `same group`: inside the methods of a list type of package flows whose elements are pointers to an asset wrapper with a UUID() method (GroupList), elements are identified the same way everywhere — by UUID — and never by pointer (an == on two element pointers, slices.Index / slices.Contains on the element slice): the membership test and Add go by UUID, so a Remove that goes by pointer finds nothing when the contact's groups were resolved from another load of the same assets, yet the modifier has already decided, by UUID, to announce the removal")
 	r.Assumption("the replay semantics of each event type (that applying contact_name_changed sets the name, etc.) is the host's contract and is not checked")
 
 	modIface := p.Interface("flows", "Modifier")
@@ -168,6 +281,7 @@ func checkC03(p *core.Program, r *core.Report) {
 
 	c03R6(p, r, applies)
 	c03R7(p, r)
+	c03R9(p, r)
 	c03R8(p, r, applies)
 
 	// ---------------- R1
